@@ -376,7 +376,10 @@ pub fn run(tier: Tier, seed: u64) -> i32 {
                     one.path.push(Idx::N(1));
                     filters.push(Expr::cmp(one.clone(), CmpOp::Ne, Rhs::Lit(Lit::str(b"a"))));
                     filters.push(Expr::cmp(one, CmpOp::Contains, Rhs::Lit(Lit::str(b"a"))));
-                    // a mapped call over the result of this call
+                    // a mapped call over the result of this call, as a value (its static type,
+                    // Array(Int), differs from what it maps over: the tag of an absence shows it)
+                    check_value(&run, ID, &b, &Lhs::call("len", vec![Arg::Lhs(each.clone())]));
+                    // ... and under a quantifier
                     filters.push(Expr::any(QArg::Logical(Expr::cmp(
                         Lhs::callp("len", vec![Arg::Lhs(each)], vec![Idx::Each]),
                         CmpOp::Eq,
